@@ -45,7 +45,7 @@ def main(argv):
     seams.setup_process()
     faulthandler.enable()
     signal.signal(signal.SIGALRM, _alarm)
-    per_run = float(os.environ.get('DDSIM_RUN_LIMIT', '30'))
+    per_run = float(os.environ.get('DDSIM_RUN_LIMIT', '120'))
     hs = int(os.environ['PYTHONHASHSEED'])
     out = sys.stdout
     shrunk_kinds = {}
